@@ -26,6 +26,7 @@ def step' (r : AR) (line : String) : AR × String :=
   | ["ru", d, n, c] => let (x, r, _) := ARd.readUntil r (fromHex d) (optInt n) (c == "1"); (r, showRes x ++ st r)
   | ["pu", d, c] => let (x, r) := ARd.pipeUntil r (fromHex d) (c == "1"); (r, showRes x ++ st r)
   | ["pipe"] => let (x, r) := ARd.pipe r; (r, showRes x ++ st r)
+  | ["exhaust"] => let (x, r) := ARd.pipe r; (r, (match x with | .ok _ => "unit" | e => showRes e) ++ st r)
   | _ => (r, "bad-op")
 
 partial def loop (h : IO.FS.Stream) (r : AR) : IO Unit := do
